@@ -220,3 +220,66 @@ package leanhelix
 //@   assert before call sendUpdateMessageNonBlocking [O14.1.older-contexts-cancelled-before-forwarding] m.state.Contexts.newestHvCanceledOlder != nil && !Older(m.state.Contexts.newestHvCanceledOlder.height, m.state.Contexts.newestHvCanceledOlder.view, (receivedBlockHeight + 1) % 2^64, 0)
 //@   assert before call CancelOlderThan#1 [O15.5.a-trigger-cancels-exactly-the-positions-older-than-its-own-next-view] $hv.height == trigger.Hv.height && $hv.view == (trigger.Hv.view + 1) % 2^64
 //@   assert before call sendElectionMessageNonBlocking [O15.5.view-context-cancelled-before-forwarding] m.state.Contexts.newestHvCanceledOlder != nil && !Older(m.state.Contexts.newestHvCanceledOlder.height, m.state.Contexts.newestHvCanceledOlder.view, trigger.Hv.height, (trigger.Hv.view + 1) % 2^64)
+
+// ======================= construction and start (C12: the loops' preconditions are established, not assumed) =======================
+// What the two loops require of the objects they run on (heap part). NewLeanHelix / NewWorkerLoop establish it, MainLoop.Run
+// starts the loops only with it in place, and the fields it mentions are written nowhere else (structural field-writers).
+//@ pred WorkerWired(lh *WorkerLoop, st *state.State, config *interfaces.Config) = lh != nil && lh.state == st && lh.config == config && lh.filter != nil && lh.filter.state == st && lh.filter.futureCache != nil
+//@   | && (forall k int :: !has(lh.filter.futureCache, k)) && lh.filter.consensusMessagesHandler == nil && lh.leanHelixTerm == nil
+//@   | && cap(lh.workerUpdateStateChannel) > 0 && cap(lh.electionChannel) > 0 && lh.MessagesChannel != nil
+//@   | && lh.filter.instanceId == config.InstanceId && lh.filter.myMemberId == config.Membership.MyMemberId()
+//@ func NewWorkerLoop
+//@   props C12 C13 C17
+//@   requires state != nil && config != nil && config.Membership != nil
+//@   ensures [wired] WorkerWired(result, state, config) && result.electionTrigger == electionTrigger
+//@ func NewLeanHelix
+//@   props C12 C13
+//@   requires config != nil
+//@   ensures [wired] result != nil && result.config == config && result.state != nil && result.state.height == 0 && result.state.view == 0 && result.state.Contexts != nil && !result.state.Contexts.shutdown
+//@   ensures [an-election-scheduler-is-always-present] result.electionScheduler != nil
+//@   ensures [channels] result.messagesChannel != nil && result.mainUpdateStateChannel != nil && result.worker == nil
+
+// starting: the worker is built and both loops are handed to the supervisor only with their preconditions in place
+//@ pred MainReady(m *MainLoop, ctx context.Context) = m.worker != nil && m.state != nil && m.state.Contexts != nil && m.worker.state == m.state && m.electionScheduler != nil && ctx != nil && cap(m.worker.workerUpdateStateChannel) > 0 && cap(m.worker.electionChannel) > 0
+//@ pred WorkerReady(lh *WorkerLoop, ctx context.Context) = ctx != nil && lh.state != nil && lh.filter != nil && lh.filter.state == lh.state && lh.filter.futureCache != nil && lh.state.Contexts != nil
+//@   | && lh.config != nil && lh.config.KeyManager != nil && lh.config.BlockUtils != nil && lh.config.Membership != nil && lh.electionTrigger != nil
+//@   | && (forall k int :: !has(lh.filter.futureCache, k)) && lh.filter.consensusMessagesHandler == nil
+//@ func (*MainLoop).Run
+//@   props C12 C13
+//@   requires [A-NONNIL.the-consumer-configured-its-spi] m.config != nil && m.config.KeyManager != nil && m.config.BlockUtils != nil && m.config.Membership != nil && ctx != nil
+//@   requires [built-by-NewLeanHelix] m.state != nil && m.state.Contexts != nil && m.electionScheduler != nil
+//@   modifies leanhelix.MainLoop.worker
+//@   assert before call runMainLoop [O12.the-main-loop-is-started-with-its-precondition-established] MainReady(m, ctx)
+//@   assert before call Forever [O12.the-worker-loop-is-started-with-its-precondition-established] WorkerReady(m.worker, ctx)
+// the loop bodies handed to the supervisor: their preconditions are the two assertions above (the fields they mention are
+// written only by the constructors and by MainLoop.Run - structural field-writers)
+//@ func (*MainLoop).runMainLoop$1
+//@   props C12
+//@   requires MainReady(m, ctx)
+//@   modifies *
+//@ func (*MainLoop).Run$1
+//@   props C12
+//@   requires WorkerReady(m.worker, ctx)
+//@   requires [A-KM-SIGN] SignsAs(m.worker.config.KeyManager, m.worker.config.Membership.MyMemberId())
+//@   entry-assume [A-GHOST.nothing-announced-committed-or-delivered-before-the-loop-starts] lastRoundHeight <= m.worker.state.height && lastCommitHeight <= m.worker.state.height && ndelivered >= 0
+//@   modifies *
+
+// ======================= API entry points (C12 C14 C16) =======================
+// A received message is handed to the main loop unchanged, or dropped only because the caller's context is done; the call
+// cannot block past cancellation (structural `cancellable`).
+//@ func (*MainLoop).HandleConsensusMessage
+//@   props C12 C16
+//@   safety iface
+//@   requires ctx != nil && m.config != nil && m.config.Membership != nil
+//@   modifies ghost:nsent, ghost:lastSent_ConsensusRawMessage, ghost:recvd
+//@   ensures [O12.the-message-is-handed-over-unchanged-or-the-context-is-done] (nsent == old(nsent) + 1 && lastSent_ConsensusRawMessage[m.messagesChannel] == message) || (nsent == old(nsent) && done_observed(ctx))
+// A sync request is handed to the main loop as given (block and previous proof), or refused with an error only because the
+// caller's context is done.
+//@ func (*MainLoop).UpdateState
+//@   props C14 C16 C12
+//@   safety iface
+//@   requires ctx != nil && m.state != nil && m.config != nil && m.config.Membership != nil
+//@   modifies ghost:nsent, ghost:lastSent_blockWithProof, ghost:recvd
+//@   ensures [O14.0.the-sync-is-handed-over-as-given] result == nil ==> nsent == old(nsent) + 1 && lastSent_blockWithProof[m.mainUpdateStateChannel] != nil
+//@     | && ref(lastSent_blockWithProof[m.mainUpdateStateChannel], *blockWithProof).block == prevBlock && ref(lastSent_blockWithProof[m.mainUpdateStateChannel], *blockWithProof).prevBlockProofBytes == prevBlockProofBytes
+//@   ensures [O14.0.refused-only-when-the-context-is-done] result != nil ==> nsent == old(nsent) && done_observed(ctx)
